@@ -77,8 +77,9 @@ def main():
             env["PYTHONPATH"] = changed
             junit = os.path.join(base, "junit.xml")
             t = time.time()
-            rc, out = sh("/venv/bin/python -m pytest -ra -q -p no:cacheprovider --timeout=900 --continue-on-collection-errors "
-                         "--junitxml=%s" % junit, cwd=changed + "/cpppo", env=env, timeout=5400)
+            # the repository's tests bind fixed localhost ports: never run two suites at once (flock serialises them)
+            rc, out = sh("flock /tmp/seed-suite.lock /venv/bin/python -m pytest -ra -q -p no:cacheprovider --timeout=900 --continue-on-collection-errors "
+                         "--junitxml=%s" % junit, cwd=changed + "/cpppo", env=env, timeout=14400)
             rc2, cmp_out = sh("python3 %s/tools/compare_baseline.py %s" % (VERIF, junit))
             print("repo suite on changed copy (%.0fs): %s" % (time.time() - t, cmp_out.strip()))
             meta["suite_compare"] = cmp_out.strip()
